@@ -112,8 +112,8 @@ func (p *Program) applySweeps() {
 			if p.fset.Position(fn.Syntax().Pos()).Filename != target {
 				continue
 			}
-			if deferOnly(fn) {
-				continue // always inlined at the defer site; its obligations are generated there
+			if deferOnly(fn) || confinedClosure(fn) {
+				continue // always inlined at its call sites; its obligations are generated there
 			}
 			skip := false
 			for _, e := range sw.excl {
